@@ -28,6 +28,8 @@ EXTENDS Reconcile
 Sides == {"alpha", "beta"}
 \* commands that may start a synchronization loop for a paused session
 RestartKinds == {"resume", "restart"}
+\* commands that write the persisted pause flag (reset pauses and resumes a running session)
+FlagWriters == {"pause", "resume", "reset", "terminate"}
 \* commands after which a session halted for safety may legitimately operate again ("the user intervenes")
 HaltEndKinds == {"resume", "restart", "reset"}
 HaltedStatuses == {"halted-on-root-emptied", "halted-on-root-deletion", "halted-on-root-type-change"}
@@ -134,6 +136,7 @@ MInit(mode) == [
   infl |-> {},           \* commands called and not yet returned, as [id, kind, ep, busy]: ep = epoch when called,
                          \* busy = a resume/restart was in flight when it was called
   epoch |-> 0,           \* number of resume/restart calls so far
+  epoch2 |-> 0,          \* number of pause/reset/terminate/resume calls so far (commands that write the pause flag)
   resetDirty |-> FALSE,  \* a scan returned while a reset was in flight
   pz |-> "no",           \* "yes": a pause returned ok (or the session was created paused) and no resume/restart began since
   quiet |-> FALSE,       \* the session must not perform endpoint operations
@@ -171,8 +174,14 @@ CycleComplete(c, mode) ==
 \* ---------------------------------------------------------------- events
 \* kinds: "create" "createp" "pause" "resume" "flushw" "flushn" "reset" "terminate" "restart"
 MCall(m, i, k) ==
-  LET m1 == [m EXCEPT !.infl = @ \cup {[id |-> i, kind |-> k, ep |-> m.epoch, busy |-> InflKinds(m, RestartKinds) # {}]},
-                      !.epoch = IF k \in RestartKinds THEN @ + 1 ELSE @]
+  LET m1 == [m EXCEPT !.infl = @ \cup {[id |-> i, kind |-> k, ep |-> m.epoch, busy |-> InflKinds(m, RestartKinds) # {},
+                                        ep2 |-> m.epoch2 + (IF k \in FlagWriters THEN 1 ELSE 0),
+                                        busy2 |-> InflKinds(m, FlagWriters) # {}]},
+                      !.epoch = IF k \in RestartKinds THEN @ + 1 ELSE @,
+                      !.epoch2 = IF k \in FlagWriters THEN @ + 1 ELSE @,
+                      \* a pause / reset / terminate that begins may (or, failing, may not) change the flag on disk
+                      \* (a terminate - even one that then reports an error - may remove the session file)
+                      !.pz = IF k = "terminate" \/ (k \in {"pause", "reset"} /\ @ = "no") THEN "unk" ELSE @]
       m2 == IF k \in HaltEndKinds
             THEN [m1 EXCEPT !.halted = FALSE, !.haltSettled = FALSE, !.hflush = {}, !.haltRoots = NoRoots]
             ELSE IF k = "pause" THEN [m1 EXCEPT !.haltTouched = TRUE]
@@ -195,11 +204,14 @@ MRet(m, i, k, r) ==
       \* journal entry of a return may lag behind the return itself, so "none in flight now" is not enough.)
       undisturbed == (\E x \in m.infl : x.id = i) /\ ~me.busy /\ me.ep = m.epoch
   IN CASE k = "pause" /\ r = "ok" ->
-            IF undisturbed THEN [m1 EXCEPT !.quiet = TRUE, !.pz = "yes"] ELSE [m1 EXCEPT !.pz = "unk"]
+            \* the flag on disk is known only if no other writer of it (pause, resume, reset, terminate - a terminate may
+            \* remove the session file and still report an error) was in flight at, or called since, this pause's call
+            IF undisturbed THEN [m1 EXCEPT !.quiet = TRUE, !.pz = IF ~me.busy2 /\ me.ep2 = m.epoch2 THEN "yes" ELSE "unk"]
+            ELSE [m1 EXCEPT !.pz = "unk"]
        [] k = "createp" /\ r = "ok" -> [m1 EXCEPT !.quiet = TRUE, !.pz = "yes"]
        [] k = "terminate" /\ r = "ok" -> [m1 EXCEPT !.quiet = TRUE, !.term = TRUE, !.resetClean = FALSE]
-       [] k = "resume" /\ r = "ok" ->
-            IF undisturbed /\ InflKinds(m1, {"pause"}) = {} /\ m.pz = "unk" THEN [m1 EXCEPT !.pz = "no"] ELSE m1
+       [] k = "resume" /\ r = "ok" ->      \* no other writer of the pause flag was called or in flight since this call
+            IF (\E x \in m.infl : x.id = i) /\ ~me.busy2 /\ me.ep2 = m.epoch2 THEN [m1 EXCEPT !.pz = "no"] ELSE m1
        [] k = "reset" /\ r = "ok" ->
             [m1 EXCEPT !.resetClean = ~m.term /\ ~m.resetDirty /\ InflKinds(m1, {"terminate", "reset"}) = {}]
        [] k = "reset" /\ r # "ok" -> [m1 EXCEPT !.resetRef = NoRoots]
@@ -289,6 +301,8 @@ C29_FlushFresh(m) == ~m.badFlush
 KnownPaused(m) == m.pz = "yes" /\ ~m.term /\ InflKinds(m, {"terminate"}) = {}
 C29_PauseSurvivesRestart(m, st) == KnownPaused(m) => (st.listed /\ st.paused)
 C29_PauseOnDisk(m, dk) == KnownPaused(m) => (dk.sessionFile /\ dk.paused)
+\* a resume that returned ok has persisted "not paused" (growth: model invariant, conformance counter on real sessions)
+ResumeOnDisk(m, dk) == (m.pz = "no" /\ ~m.term /\ m.infl = {}) => (dk.sessionFile => ~dk.paused)
 C29_TerminatedGoneDisk(m, dk) == m.term => (~dk.sessionFile /\ dk.archive = Gone)
 C29_TerminatedGoneList(m, st) == m.term => ~st.listed
 C29_ResetArchive(m, dk) == m.resetClean => dk.archive = Nil
